@@ -83,4 +83,4 @@ install(globals(), 'C01', view, oracle,
                    'the trace correspondence sampled it; the float clock only on exact tick grids; parallel '
                    'execution is covered by C13; the hierarchy/topology side of applying an update by C06/C08.',
         technique='Lean 4 invariant proof over the scheduler loop + event-trace correspondence',
-        required=['exactly_once', 'applied_on_time', 'nothing_pending_after_run'])
+        required=['exactly_once', 'applied_on_time', 'nothing_pending_after_run', 'quiet_invokes_nothing', 'accepted_applies_on_time'])
